@@ -170,6 +170,20 @@ def run_case(case, res):
     def fail(msg, **kw):
         res.violation(case, msg, **kw)
 
+    def struct():
+        out = []
+
+        def rec(h):
+            ks = list(h.children)
+            out.append([id(c) for c in ks])
+            for c in ks:
+                rec(c)
+
+        rec(t)
+        return out
+
+    before_struct = struct()
+
     try:
         with case_deadline(20), warnings.catch_warnings():
             warnings.simplefilter("ignore")
@@ -195,12 +209,23 @@ def run_case(case, res):
                 if sorted(map(str, got)) != sorted(map(str, range(sh.n))):
                     fail(f"iterator({method}) is not a permutation: {got}")
             elif case["mode"] == "unsupported":
+                # an entry point may refuse a method with NotImplementedError, or support it fully
                 try:
                     if case["entry"] == "node_iter":
-                        list(nodes[0].iterator(im))
+                        got = [idx_of.get(id(n), "?") for n in nodes[0].iterator(im)]
+                        exp_set = sorted(map(str, sh.order(0, "pre", False)))
+                        if sorted(map(str, got)) != exp_set:
+                            fail(f"node.iterator({method}) is supported but is not a permutation of the branch: {got}")
                     else:
-                        (t if start == -1 else sobj).visit(lambda n, m: None, method=im)
-                    fail(f"{case['entry']}({method}) did not raise NotImplementedError")
+                        trace = []
+                        st = -1 if start == -1 else start
+                        (t if start == -1 else sobj).visit(lambda n, m: trace.append(idx_of.get(id(n), "?")), method=im)
+                        if method in ("random", "unordered"):
+                            if sorted(map(str, trace)) != sorted(map(str, sh.order(st, "pre", False))):
+                                fail(f"visit({method}) is supported but is not a permutation: {trace}")
+                        elif trace != sh.order(st, method, False):
+                            fail(f"visit({method}) is supported but follows another order: {trace}, expected {sh.order(st, method, False)}")
+                    res.count("unsupported_but_supported")
                 except NotImplementedError:
                     res.count("unsupported_refused")
             else:  # visit
@@ -234,6 +259,15 @@ def run_case(case, res):
                     fail(f"visit() returned {ret!r}, expected {expval!r} (signal {form}@{sig_at})")
                 if memos and any(m is not memos[0] for m in memos):
                     fail("visit() passed different memo objects")
+            # a traversal is read-only: the child lists are untouched and a following pre-order
+            # iteration of the same tree object still gives the definition
+            if struct() != before_struct:
+                fail(f"{case['mode']}({method}) modified the tree's child lists")
+            else:
+                again = [idx_of.get(id(n), "?") for n in t]
+                if again != sh.order(-1, "pre", False):
+                    fail(f"after {case['mode']}({method}) a pre-order iteration of the same tree gives {again}")
+            res.count("readonly_checks")
     except CaseTimeout:
         res.inconc("case watchdog fired")
     except Exception:
